@@ -2,7 +2,7 @@
 import common as C, core, gen, pydec, p_seq
 
 core.register("C10", "Props.C10", "theories/Props/C10.vo",
-              ["C10_every_cut_has_this_shape", "C10_longest_prefix_open", "C10_truncate_disabled"])
+              ["C10_every_cut_has_this_shape", "C10_longest_prefix_open", "C10_truncate_disabled", "C10_dump_torn", "C10_dump_zero_tail_short"])
 core.register("C09", "Props.C09", "theories/Props/C09.vo",
               ["C09_crc32_single_byte", "C09_single_byte_outcomes", "C09_checksum_field", "C09_fixed_fields",
                "C09_append_fixed_fields", "C09_open_refuses", "C09_middle_missing",
@@ -227,7 +227,44 @@ def run_C10(ctx):
                     ctx.fail("oracle", "C10 oracle: " + why, dict(kind="image", case=c[:6000], mutation=m, observed=a[:1500]))
         ctx.k_checks["oracle-recovered-entries-survive-cache-drain"] = (bad3 == 0, len(dcases))
         ctx.count("drain_cases", len(dcases))
-    ctx.cov["evaluations"] = len(cases) + len(dcases)
+    # the standalone Dump on the same damaged directories: every complete record is listed
+    # with its file-local offset, a torn or zero tail gives exactly one error item, last in
+    # its chunk, carrying the number of complete records before it
+    ucases, umeta = [], []
+    pick = list(range(len(cases)))
+    rnd.shuffle(pick)
+    for i in pick[: ctx.scale(600, 6000)]:
+        parts = cases[i].split("|")
+        ucases.append("DUMPDIR | " + parts[1].strip())
+        umeta.append(meta[i])
+    ui = C.run_impl(ucases, ctx.wd, "dumpdir")
+    um = C.run_model(ucases, ctx.wd, "dumpdir")
+    core.compare(ctx, "dump-of-damaged-directory", ucases, ui, um)
+    bad4 = 0
+    for c, m, a in zip(ucases, umeta, ui):
+        im = m["img"]
+        fid = im["disk"][-1][0]
+        items = a.split()[1:]
+        mine = [x for x in items if x.startswith("%d:" % fid)]
+        errs = [x for x in mine if ":err:" in x]
+        oks = [x for x in mine if ":err:" not in x]
+        why = None
+        if a == "panic" or not a.startswith("dump"):
+            why = "Dump panicked or failed: " + a[:100]
+        elif len(oks) != m["k"]:
+            why = "Dump lists %d records of the newest chunk, %d are complete" % (len(oks), m["k"])
+        elif m["kind"] == "cut" and m["boundary"] and errs:
+            why = "Dump reports an error in a file that ends on a record boundary: " + errs[0]
+        elif not (m["kind"] == "cut" and m["boundary"]) and (len(errs) != 1 or mine[-1] != errs[0] or not errs[0].startswith("%d:%d:err:" % (fid, m["k"]))):
+            why = "a torn or zero tail must give exactly one error item, last, numbered %d: %s" % (m["k"], mine[-2:])
+        elif [x for x in items if ":err:" in x and not x.startswith("%d:" % fid)]:
+            why = "Dump reports an error in an undamaged older chunk"
+        if why:
+            bad4 += 1
+            if bad4 <= 3:
+                ctx.fail("oracle", "C10 oracle: " + why, dict(kind="image", case=c[:6000], mutation={k: v for k, v in m.items() if k != "img"}, observed=a[:1500]))
+    ctx.k_checks["oracle-dump-of-damaged-directory"] = (bad4 == 0, len(ucases))
+    ctx.cov["evaluations"] = len(cases) + len(dcases) + len(ucases)
     ctx.cov["distinct_nontrivial"] = len(set(cases))
     ctx.cov["exhaustive_per_image"] = True
     ctx.cov["rule"] = "for each generated clean image: every cut position 0..len of the newest chunk (all positions when the file has <= 700 bytes, else all boundaries +-1, the first 60 bytes and 200 random ones), zero tails at every record boundary with the listed lengths, both values of truncate_incomplete_record; each followed by writes, flush and a second restart; every case is non-trivial (a damaged image), distinct by case line"
